@@ -50,7 +50,7 @@ pub fn queue_segments(sc: &str) -> Vec<String> {
             if lines.is_empty() {
                 continue;
             }
-            v.push(json!({"e":"Reset","sc":format!("{sc}/q{q}"),"n":n,"ind":neg >> 28 & 1 == 1,"ev":neg >> 29 & 1 == 1,"ap":neg >> 33 & 1 == 1,"adv":w.adv.is_some()}).to_string());
+            v.push(json!({"e":"Reset","sc":format!("{sc}/q{q}"),"n":n,"ind":neg >> 28 & 1 == 1,"ev":neg >> 29 & 1 == 1,"ap":neg >> 33 & 1 == 1,"adv":w.adv.is_some(),"inplace":w.inplace}).to_string());
             v.extend(lines);
         }
         v
